@@ -563,6 +563,8 @@ func (e *Engine) applyContract(fr *Frame, st *State, con *Contract, sig *types.S
 	old := st.clone()
 	ctx.old = old
 	// havoc the frame
+	e.symMode++
+	defer func() { e.symMode-- }()
 	for _, m := range con.Modifies {
 		l, ok := ctx.loc(m)
 		if !ok {
@@ -577,6 +579,9 @@ func (e *Engine) applyContract(fr *Frame, st *State, con *Contract, sig *types.S
 			cur, _ = e.ghostInit(st, g).(*Term)
 		}
 		st.ghost[g] = Add(cur, Num(1))
+	}
+	for g, val := range con.GhostSet {
+		st.ghost[g] = Num(val)
 	}
 	res := e.freshResults(st, sig)
 	for i, name := range con.Results {
@@ -600,8 +605,11 @@ func (e *Engine) applyContract(fr *Frame, st *State, con *Contract, sig *types.S
 	ctx.setVar = mkSetVar(ctx, res)
 	var pend []pendingFork
 	ctx.pend = &pend
-	// clauses that rebuild a map from its old value come first (they are strong updates)
-	var first, rest []Expr
+	// phase 1: strong updates first — clauses that rebuild a map from its old value, slice /
+	// pointer geometry equalities (unconditional now, conditional ones are collected for
+	// forking); every other clause is assumed afterwards, in each resulting state, so that
+	// no clause is ever evaluated on a placeholder that a later clause replaces
+	var first, strong, later []Expr
 	var split func(x Expr)
 	split = func(x Expr) {
 		if b, ok := x.(*EBinary); ok && b.Op == "&&" {
@@ -613,12 +621,43 @@ func (e *Engine) applyContract(fr *Frame, st *State, con *Contract, sig *types.S
 			first = append(first, x)
 			return
 		}
-		rest = append(rest, x)
+		if b, ok := x.(*EBinary); ok {
+			if b.Op == "==" && ctx.needsStrong(x) {
+				strong = append(strong, x)
+				return
+			}
+			if b.Op == "==>" && ctx.needsStrong(b.Y) {
+				// split the consequent: strong conjuncts fork, the rest waits
+				var sq, rq []Expr
+				var sp func(y Expr)
+				sp = func(y Expr) {
+					if bb, ok := y.(*EBinary); ok && bb.Op == "&&" {
+						sp(bb.X)
+						sp(bb.Y)
+						return
+					}
+					if ctx.needsStrong(y) {
+						sq = append(sq, y)
+					} else {
+						rq = append(rq, y)
+					}
+				}
+				sp(b.Y)
+				for _, y := range sq {
+					strong = append(strong, &EBinary{"==>", b.X, y})
+				}
+				for _, y := range rq {
+					later = append(later, &EBinary{"==>", b.X, y})
+				}
+				return
+			}
+		}
+		later = append(later, x)
 	}
 	for _, cl := range con.Cases[0].Ensures {
 		split(cl.E)
 	}
-	for _, x := range append(first, rest...) {
+	for _, x := range append(first, strong...) {
 		ctx.assume(x)
 	}
 	outs := []Outcome{{st: st, results: res}}
@@ -691,6 +730,25 @@ func (e *Engine) applyContract(fr *Frame, st *State, con *Contract, sig *types.S
 			next = append(next, o, Outcome{st: s1, results: r1})
 		}
 		outs = next
+	}
+	// phase 3: the remaining clauses, in every resulting state
+	for _, o := range outs {
+		cx := *ctx
+		cx.st = o.st
+		cx.pend = nil
+		cx.bind = make(map[string]Value, len(ctx.bind))
+		for k, v := range ctx.bind {
+			cx.bind[k] = v
+		}
+		for i, name := range con.Results {
+			if i < len(o.results) {
+				cx.bind[name] = o.results[i]
+			}
+		}
+		cx.setVar = mkSetVar(&cx, o.results)
+		for _, x := range later {
+			cx.assume(x)
+		}
 	}
 	if con.Kind == "trusted func" || con.Kind == "interface" {
 		e.noteAssumption("assumed contract of " + con.Key + " (" + con.Kind + ")")
